@@ -22,7 +22,7 @@ func init() { core.Register(area{}) }
 func (area) Name() string { return "tagfilter" }
 
 // number of deterministic witness cases at the start of every run
-const nWitness = 6
+const nWitness = 7
 
 func (area) Run(c *core.Ctx) error {
 	for i := 0; i < c.N; i++ {
@@ -44,7 +44,9 @@ func (area) Run(c *core.Ctx) error {
 			witnessNotCompound(c)
 		case i == 5:
 			witnessStuckImmutable(c)
-		case i%7 == 6:
+		case i == 6:
+			witnessInsideFlush(c)
+		case i%7 == 0:
 			readerCase(c, r)
 		case c.Tier == "thorough" && i == nWitness+1:
 			bigCase(c, r)
@@ -986,7 +988,33 @@ func dbCase(c *core.Ctx, r *rand.Rand) {
 		case x < 45 || s < 4:
 			d.write(metrics[r.Intn(len(metrics))], d.randomTags(r, keys, vals))
 		case x < 62:
-			switch r.Intn(6) {
+			switch r.Intn(8) {
+			case 6, 7: // queries from INSIDE a real Flush(), sometimes with a failing file creation
+				var qs []probeQuery
+				for len(qs) < 2 {
+					if q, ok := genQuery(c, r, metrics, keys, defects); ok {
+						qs = append(qs, q)
+					}
+				}
+				switch r.Intn(8) {
+				case 0:
+					d.place("prepare-index")
+					d.flushInside(false, "inverted", qs)
+				case 1:
+					d.place("prepare-index")
+					d.flushInside(false, "forward", qs)
+				case 2:
+					d.place("prepare-meta")
+					d.flushInside(true, "tv", qs)
+				case 3, 4:
+					d.place("prepare-meta")
+					d.flushInside(true, "", qs)
+				default:
+					if r.Intn(4) > 0 {
+						d.place("prepare-index")
+					}
+					d.flushInside(false, "", qs)
+				}
 			case 0: // a whole flush cycle of both databases, as the flush checker does
 				for _, p := range []string{"prepare-meta", "flush-meta", "prepare-index", "flush-index"} {
 					d.place(p)
@@ -1001,44 +1029,51 @@ func dbCase(c *core.Ctx, r *rand.Rand) {
 				d.place(places[r.Intn(len(places))])
 			}
 		default:
-			name := metrics[r.Intn(len(metrics))]
-			if r.Intn(40) == 0 {
-				name = "nometric"
+			if q, ok := genQuery(c, r, metrics, keys, defects); ok {
+				d.query(q.metric, q.cond, q.groupBy, q.how)
 			}
-			g := &cgen{r: r, keys: keys, tree: r.Intn(2) == 0, defects: defects}
-			cond := g.expr(1 + r.Intn(3))
-			var gb []string
-			switch r.Intn(6) {
-			case 0, 1:
-			case 2:
-				gb = append(gb, keys...) // group by all keys: identifies the series
-			case 3:
-				gb = []string{keys[r.Intn(len(keys))]}
-			case 4:
-				p := r.Perm(len(keys))
-				gb = []string{keys[p[0]], keys[p[1]]}
-			default:
-				if r.Intn(6) == 0 {
-					gb = []string{"nokey"}
-				} else {
-					gb = []string{keys[r.Intn(len(keys))]}
-				}
-			}
-			how := "tree"
-			if !g.tree {
-				if text, ok := sqlOf(cond); ok {
-					parsed, pgb, err := parseWhere(text, gb)
-					if err != nil {
-						c.Fail("sql-parse", err.Error())
-						continue
-					}
-					cond, how = parsed, "sql"
-					if len(gb) > 0 {
-						gb = pgb
-					}
-				}
-			}
-			d.query(name, cond, gb, how)
 		}
 	}
+}
+
+// genQuery draws one leaf query: metric, condition (SQL text through sql.Parse or a stmt tree), group-by keys.
+func genQuery(c *core.Ctx, r *rand.Rand, metrics, keys []string, defects bool) (probeQuery, bool) {
+	name := metrics[r.Intn(len(metrics))]
+	if r.Intn(40) == 0 {
+		name = "nometric"
+	}
+	g := &cgen{r: r, keys: keys, tree: r.Intn(2) == 0, defects: defects}
+	cond := g.expr(1 + r.Intn(3))
+	var gb []string
+	switch r.Intn(6) {
+	case 0, 1:
+	case 2:
+		gb = append(gb, keys...) // group by all keys: identifies the series
+	case 3:
+		gb = []string{keys[r.Intn(len(keys))]}
+	case 4:
+		p := r.Perm(len(keys))
+		gb = []string{keys[p[0]], keys[p[1]]}
+	default:
+		if r.Intn(6) == 0 {
+			gb = []string{"nokey"}
+		} else {
+			gb = []string{keys[r.Intn(len(keys))]}
+		}
+	}
+	how := "tree"
+	if !g.tree {
+		if text, ok := sqlOf(cond); ok {
+			parsed, pgb, err := parseWhere(text, gb)
+			if err != nil {
+				c.Fail("sql-parse", err.Error())
+				return probeQuery{}, false
+			}
+			cond, how = parsed, "sql"
+			if len(gb) > 0 {
+				gb = pgb
+			}
+		}
+	}
+	return probeQuery{metric: name, cond: cond, groupBy: gb, how: how}, true
 }
